@@ -30,6 +30,7 @@ func openPaths(c *mon.Case, st *store.Store, root cid.Cid, contentLen int) map[s
 		cfg = 1 // the NodeReifier configuration re-reads whole sub-trees per Read call: keep it to small files
 	}
 	ls := st.LinkSystemCfg(true, cfg == 1, cfg == 2)
+	c01LS = ls
 	c.Count(fmt.Sprintf("linksystem_cfg_%d", cfg), 1)
 	raw, err := loadRaw(st.LinkSystem(false), root)
 	if err != nil {
@@ -70,6 +71,9 @@ func openPaths(c *mon.Case, st *store.Store, root cid.Cid, contentLen int) map[s
 	})
 	return out
 }
+
+// c01LS is the link system the nodes of the current case were opened with (its owner may re-target it).
+var c01LS *ipld.LinkSystem
 
 type c01KeptValue struct {
 	got, want []byte
@@ -272,6 +276,31 @@ func checkReadBack(c *mon.Case, st *store.Store, root cid.Cid, content []byte, w
 				}
 			}
 		})
+		if blocks >= 2 && len(content) >= 3 && c01LS != nil {
+			// the owner of the link system points it at other storage holding the same blocks and shuts
+			// the old one while a reader is part-way through the file: the reader carries on from there
+			c.Guard("retarget mid-read", func() {
+				r := open()
+				if r == nil {
+					return
+				}
+				head := make([]byte, len(content)/3)
+				_, err := io.ReadFull(r, head)
+				if err != nil {
+					cmp("read-a-third", head, err)
+					return
+				}
+				st2 := st.Clone()
+				oldOpener := c01LS.StorageReadOpener
+				c01LS.StorageReadOpener = st2.OpenRead
+				st.Closed = true
+				rest, err := io.ReadAll(r)
+				st.Closed = false
+				c01LS.StorageReadOpener = oldOpener
+				c.Count("readers_retargeted_mid_read", 1)
+				cmp("read-a-third+retarget+ReadAll", append(head, rest...), err)
+			})
+		}
 		c.Guard("Seek(0,End)", func() {
 			if r := open(); r != nil {
 				end, err := r.Seek(0, io.SeekEnd)
